@@ -161,3 +161,11 @@ func (e *Explorer) Prefixes(depth int, body func(c *Ctx)) [][]int {
 	rec(nil)
 	return out
 }
+
+// RunPartial is like Run but tolerates an execution that ends before the
+// prefix is used up (e.g. because an injected fault stops the program early).
+func RunPartial(prefix []int, body func(c *Ctx)) *Ctx {
+	c := &Ctx{prefix: prefix}
+	body(c)
+	return c
+}
